@@ -393,7 +393,7 @@ func c15Units(tier string) []*Unit {
 	for _, f := range c15Alphabet {
 		us = append(us, c15Unit(f, tier))
 	}
-	us = append(us, c15IncludeAliasUnit())
+	us = append(us, c15IncludeAliasUnit(), c15CommandLineUnit())
 	// suggestion on longer plain names
 	us = append(us, &Unit{Name: "suggestions", Weight: 1, Custom: func(u *Unit, dir string, deadline time.Time) *vlab.UnitResult {
 		res := &vlab.UnitResult{SigCounts: map[string]int{}, Extra: map[string]any{}}
@@ -518,6 +518,69 @@ func c15IncludeAliasUnit() *Unit {
 					v := vlab.V("C15", clause, "include_aliases:"+c.label, fmt.Sprintf("%s, request %q: %s", c.label, r.req, bad))
 					v.Scenario = name
 					v.Input = map[string]any{"files": c.files, "request": r.req}
+					res.SigCounts[v.Sig]++
+					if res.SigCounts[v.Sig] == 1 {
+						res.Violations = append(res.Violations, v)
+					}
+				}
+			}
+		}
+		res.Extra["samples"] = samples
+		res.Stats = vlab.Stats{Scenario: name, Execs: n, States: n, Transitions: n, Outcomes: 2, Exhaustive: true}
+		return res
+	}}
+}
+
+// The command line as the user types it (the binary, not Executor.Run): requested names that
+// are empty or unknown, alone, after a valid name, and together with the modes that only
+// describe tasks (--summary, --dry, --status): error 200 (203 for an ambiguous alias), no command
+// runs, for every combination.
+func c15CommandLineUnit() *Unit {
+	name := "cli/empty-and-unknown-names-with-describing-modes"
+	return &Unit{Name: name, Weight: 1, Custom: func(u *Unit, dir string, deadline time.Time) *vlab.UnitResult {
+		res := &vlab.UnitResult{SigCounts: map[string]int{}, Extra: map[string]any{}}
+		tf := "version: '3'\ntasks:\n  default:\n    cmds:\n      - echo ran-default >> ran.log\n  build:\n    desc: builds\n    summary: builds things\n    cmds:\n      - echo ran-build >> ran.log\n" +
+			"  one:\n    aliases: [amb]\n    cmds:\n      - echo ran-one >> ran.log\n  two:\n    aliases: [amb]\n    cmds:\n      - echo ran-two >> ran.log\n"
+		n := 0
+		var samples []any
+		for _, mode := range [][]string{nil, {"--summary"}, {"--dry"}, {"--status"}, {"--silent"}, {"--parallel"}} {
+			for _, c := range []struct {
+				names []string
+				code  int
+			}{
+				{[]string{""}, 200}, {[]string{"build", ""}, 200}, {[]string{"", "build"}, 200}, {[]string{"nope"}, 200}, {[]string{"build", "nope"}, 200},
+				{[]string{"amb"}, 203}, {[]string{"build", "amb"}, 203}, {[]string{" "}, 200},
+			} {
+				os.RemoveAll(dir)
+				os.MkdirAll(dir, 0o755)
+				os.WriteFile(filepath.Join(dir, "Taskfile.yml"), []byte(tf), 0o644)
+				args := append(append([]string{}, mode...), c.names...)
+				so, se, rc := RunCLI(dir, nil, "", args...)
+				n++
+				ran, _ := os.ReadFile(filepath.Join(dir, "ran.log"))
+				if len(samples) < 2 {
+					samples = append(samples, map[string]any{"args": args, "status": rc, "stderr": firstN(se, 80)})
+				}
+				bad, clause := "", ""
+				switch {
+				case len(ran) > 0:
+					clause, bad = "ran_despite_bad_name", fmt.Sprintf("commands ran (%q)", strings.TrimSpace(string(ran)))
+				case rc == 1 && len(mode) == 1 && mode[0] == "--status" && c.names[0] == "build":
+					// (--status reports the first task that is not up to date, here the valid first name)
+				case rc != c.code:
+					clause, bad = "wrong_status", fmt.Sprintf("status %d, expected %d (stdout %q stderr %q)", rc, c.code, firstN(so, 60), firstN(se, 100))
+				}
+				if bad != "" {
+					kind := "unknown"
+					switch {
+					case c.code == 203:
+						kind = "ambiguous"
+					case strings.TrimSpace(c.names[len(c.names)-1]) == "" || c.names[0] == "":
+						kind = "empty"
+					}
+					v := vlab.V("C15", clause, "cli:"+kind+":"+strings.TrimLeft(strings.Join(mode, ""), "-"), fmt.Sprintf("task %q: %s", args, bad))
+					v.Scenario = name
+					v.Input = map[string]any{"taskfile": tf, "args": args}
 					res.SigCounts[v.Sig]++
 					if res.SigCounts[v.Sig] == 1 {
 						res.Violations = append(res.Violations, v)
